@@ -200,9 +200,12 @@ class SymCtx(_BaseCtx):
         if name in self.preset:
             self.env[name] = self.preset[name]
             return self.preset[name]
-        v = self._new(int, name)
         with NoTracing():
-            self.space.add(z3.And(v.var >= lo, v.var <= hi))
+            if name in self.vars:
+                raise CrossHairInternal(f'duplicate symbol {name}')
+            from crosshair.libimpl.builtinslib import SymbolicBoundedInt
+            v = SymbolicBoundedInt(name + self.space.uniq(), int, lo, hi)
+            self.vars[name] = v
         self.env[name] = v
         return v
 
@@ -210,7 +213,12 @@ class SymCtx(_BaseCtx):
         if name in self.preset:
             self.env[name] = self.preset[name]
             return self.preset[name]
-        v = self._new(bool, name)
+        with NoTracing():
+            if name in self.vars:
+                raise CrossHairInternal(f'duplicate symbol {name}')
+            from crosshair.libimpl.builtinslib import SymbolicBool
+            v = SymbolicBool(name + self.space.uniq(), bool)
+            self.vars[name] = v
         self.env[name] = v
         return v
 
@@ -232,8 +240,14 @@ class SymCtx(_BaseCtx):
         if not cond:
             raise IgnoreAttempt('assume')
 
-    def model(self) -> dict[str, Any] | None:
+    def model(self, realize_objects: bool = False) -> dict[str, Any] | None:
         with NoTracing():
+            if realize_objects:
+                from crosshair.core import deep_realize
+                robj = {}
+                for name, v in self.vars.items():
+                    if getattr(v, 'var', None) is None:
+                        robj[name] = deep_realize(v)
             r = self.space.solver.check()
             if r != z3.sat:
                 return None
@@ -242,10 +256,13 @@ class SymCtx(_BaseCtx):
             for name, v in self.vars.items():
                 var = getattr(v, 'var', None)
                 if var is None:
-                    out[name] = v
+                    if realize_objects:
+                        out[name] = robj[name]
                     continue
                 val = m.eval(var, model_completion=True)
-                if z3.is_int_value(val):
+                if z3.is_string_value(val):
+                    out[name] = val.as_string()
+                elif z3.is_int_value(val):
                     out[name] = val.as_long()
                 elif z3.is_true(val):
                     out[name] = True
@@ -361,7 +378,9 @@ def explore(
                                 samples.append(m)
                     except Viol as v:
                         viol = v
-                        model = ctx.model()
+                        with ResumedTracing():
+                            space.detach_path()
+                        model = ctx.model(realize_objects=True)
                         status = VerificationStatus.REFUTED
                     except Known as k:
                         known[k.fid] += 1
@@ -382,7 +401,9 @@ def explore(
                         else:
                             viol = Viol('harness-exception', f'{type(e).__name__}: {_safe_str(e)}')
                             result['traceback'] = traceback.format_exc()[-3000:]
-                            model = ctx.model()
+                            with ResumedTracing():
+                                space.detach_path()
+                            model = ctx.model(realize_objects=True)
                             status = VerificationStatus.REFUTED
             except NotDeterministic as e:
                 result.update(status='inconclusive', reason='NotDeterministic: ' + _safe_str(e),
@@ -454,3 +475,32 @@ def run_native(harness: Callable[..., None], params: dict[str, Any],
     out['trace'] = ctx.trace[-200:]
     out['used'] = ctx.used
     return out
+
+
+def _symctx_str(self: SymCtx, name: str, length: int) -> Any:
+    """symbolic text of the given length."""
+    if name in self.preset:
+        self.env[name] = self.preset[name]
+        return self.preset[name]
+    v = self._new(str, name)
+    self.assume(len(v) == length)
+    self.env[name] = v
+    return v
+
+
+def _symctx_model_str(v: Any) -> Any:
+    return v
+
+
+SymCtx.str = _symctx_str  # type: ignore
+
+
+def _cctx_str(self: ConcreteCtx, name: str, length: int) -> str:
+    v = self.preset[name] if name in self.preset else self._get(name, 'A' * length)
+    if len(v) != length:
+        raise MissingValue(f'{name} wrong length')
+    self.env[name] = v
+    return v
+
+
+ConcreteCtx.str = _cctx_str  # type: ignore
